@@ -116,6 +116,69 @@ def tensor_bytes(t):
 # ----------------------------------------------------------------------------------------------
 # executing API calls described by JSON
 # ----------------------------------------------------------------------------------------------
+class InvalidScenario(Exception):
+    """The scenario is not a valid use of the API according to the spec/model alone (a shrink candidate
+    that e.g. made an output independent of every parameter). Never raised for generated scenarios."""
+
+
+def validate_call(model, call, cutmodel=None):
+    """Validity of a call as a function of the spec only (no torchjd code involved): returns None or a reason."""
+    from .aggs import admissible
+
+    leaves = {leaf["name"]: leaf for leaf in model.spec["leaves"]}
+
+    def is_param(n):
+        return n in leaves and bool(leaves[n]["rg"])
+
+    if call.get("chunk") is not None and call["chunk"] <= 0:
+        return "chunk"
+    if call["api"] == "backward":
+        ts = call["tensors"]
+        if not ts or len(set(ts)) != len(ts):
+            return "tensors"
+        for o in ts:
+            if o not in model.values or o in leaves or not model.values[o].rq or model.values[o].val.size == 0:
+                return f"tensor {o} is not a differentiable non-leaf value"
+        if call.get("inputs") is not None:
+            if not all(is_param(n) for n in call["inputs"]):
+                return "inputs"
+        m = sum(model.values[o].val.size for o in ts)
+        if not admissible(call["agg"], m):
+            return "aggregator not admissible"
+        return None
+    losses, feats = call["losses"], call["features"]
+    if not losses or not feats or len(set(feats)) != len(feats):
+        return "losses/features"
+    for o in list(losses) + list(feats):
+        if o not in model.values or o in leaves or not model.values[o].rq:
+            return f"{o} is not a differentiable non-leaf value"
+    if any(model.values[o].shape != () for o in losses):
+        return "non-scalar loss"
+    cutmodel = cutmodel or Model(model.spec, cut=feats)
+    dshared, dtasks = default_params_mtl(model, cutmodel, losses, feats)
+    shared = call["shared"] if call.get("shared") is not None else dshared
+    tasks = call["tasks"] if call.get("tasks") is not None else dtasks
+    if len(tasks) != len(losses):
+        return "len"
+    if not all(is_param(n) for n in shared) or not all(is_param(n) for tp in tasks for n in tp):
+        return "params"
+    if len(set(shared)) != len(shared) or any(len(set(tp)) != len(tp) for tp in tasks):
+        return "duplicate params"
+    if any(p in shared for tp in tasks for p in tp):
+        return "overlap"
+    if not admissible(call["agg"], len(losses)):
+        return "aggregator not admissible"
+    # every loss must be differentiable w.r.t. something it is differentiated against is not required by
+    # torch (allow_unused), but the loss itself must require grad: checked above
+    return None
+
+
+def require_valid(model, call, cutmodel=None):
+    why = validate_call(model, call, cutmodel)
+    if why is not None:
+        raise InvalidScenario(why)
+
+
 def _form(seq, kind):
     """The container form in which an Iterable[Tensor] argument is handed over (list / tuple / one-shot
     generator): part of the argument space of the API, which is typed Iterable."""
